@@ -1,10 +1,14 @@
 """C01 -- every task runs exactly once, on one worker at a time (DESIGN.md section 4, "### C01").
 
-U1  combined_tagged_state (F)                      cts.c
-U2  thread_data state-word steps (S)               word.c
-U3  switch_status ctor / store_state / dtor (S)    word.c
-L1  ownership lemmas over the U2/U3 contracts      lemma.c
-U4  scheduling-loop fragment "run one task" (T+S)  loop.c
+U1  combined_tagged_state (F)                                      cts.c    cts.*
+U2  thread_data state-word steps (S)                               word.c   word.*
+U3  switch_status ctor / store_state / dtor / operator= (S)        word.c   sw.*
+L1  ownership lemmas over the U2/U3 contracts                      lemma.c  lemma.*   (+ census of write sites)
+    the OTHER writers of the word (set_thread_state, abort_all_suspended_threads) and the runner's own set_state_ex
+                                                                   other.c  other.*
+U4  scheduling-loop fragment "run one task" (T over S)             loop.c   loop.run_one
+U5  (slice) thread_queue::schedule_thread / get_next_thread (I+T)  queue.c  queue.*
+Master templates are specialised per unit into gen/ (unit_template); specs/C01/muts.sh is the mutant battery.
 """
 import re
 
@@ -255,7 +259,8 @@ def unit_template(master, defines):
     blocks, which breaks the replay program of multi-unit templates.  Conditionals that mention anything but U_ macros
     are passed through untouched."""
     import os
-    here = os.path.dirname(os.path.abspath(__file__)) if "__file__" in globals() else os.path.join("/verif/specs", "C01")
+    from vx.run import VERIF
+    here = os.path.join(VERIF, "specs", "C01")      # (spec.py is exec'd by vx.run without __file__)
     defs = set(d.split("=")[0] for d in defines)
     out, stack = [], []      # stack entries: None (foreign conditional) or [parent_active, taken, active]
     for line in open(os.path.join(here, master)).read().split("\n"):
